@@ -103,18 +103,27 @@ def run(ctx: Ctx) -> None:
     sim = m.method("RiscvSimulation", "__init__", own=True)
     st = m.method("RiscvArchitecturalState", "__init__", own=True)
     idi = m.method(idc, "__init__", own=True)
-    hop1 = any(m.resolve_class(sim.module, c.func) is m.cls("RiscvArchitecturalState") and
-               any(k.arg == "detect_data_hazards" and ast.unparse(k.value) == "detect_data_hazards" for k in c.keywords)
+    def arg_of(call: ast.Call, callee, pname: str):
+        ps = callee.params[1:]
+        given = {ps[i]: a for i, a in enumerate(call.args) if i < len(ps)}
+        given.update({k.arg: k.value for k in call.keywords if k.arg})
+        return given.get(pname)
+
+    def is_param(e, f, pname: str) -> bool:
+        return isinstance(e, ast.Name) and e.id == pname and pname in f.params
+
+    hop1 = any(m.resolve_class(sim.module, c.func) is m.cls("RiscvArchitecturalState") and is_param(arg_of(c, st, "detect_data_hazards"), sim, "detect_data_hazards")
                for c in calls_in(sim.node))
     r.check(hop1 and "detect_data_hazards" in sim.params, "RiscvSimulation->state", sim.loc(),
             "RiscvSimulation does not pass detect_data_hazards=detect_data_hazards to the architectural state")
-    hop2 = any(m.resolve_class(st.module, c.func) is idc and
-               any(k.arg == "detect_data_hazards" and ast.unparse(k.value) == "detect_data_hazards" for k in c.keywords)
-               for c in calls_in(st.node))
+    from ..pipelinerules import five_stage_config
+    cfg = five_stage_config(ctx)
+    id_calls = [c for c in cfg["stage_calls"] if m.resolve_class(st.module, c.func) is idc]
+    hop2 = len(id_calls) == 1 and is_param(arg_of(id_calls[0], idi, "detect_data_hazards"), st, "detect_data_hazards")
     r.check(hop2 and "detect_data_hazards" in st.params, "state->ID", st.loc(),
             "RiscvArchitecturalState does not pass detect_data_hazards on to InstructionDecodeStage")
     hop3 = any(isinstance(n, ast.Assign) and ast.unparse(n.targets[0]) == f"{idi.params[0]}.detect_data_hazards"
-               and ast.unparse(n.value) == "detect_data_hazards" for n in walk_no_nested(idi.node))
+               and is_param(n.value, idi, "detect_data_hazards") for n in walk_no_nested(idi.node))
     r.check(hop3, "ID.__init__", idi.loc(), "InstructionDecodeStage does not store the flag unmodified")
     for f in (sim, st, idi):
         re = [n for n in walk_no_nested(f.node) if isinstance(n, (ast.Assign, ast.AugAssign)) and any(
